@@ -103,7 +103,10 @@ def cases(tier, seed):
                  learn_rate=[1e-7, 1e-4, 1e-2, 1e-3, 0.1, 1.0, 3e-3][i % 7],
                  max_iter=(int(r.choice([0, 1, 2])) if zero else
                            int(r.randint(4, 14))),
-                 min_iter=3)
+                 min_iter=[3, 0, 1, 5][(i // 3) % 4],
+                 # (the stopping rule must not leak into step acceptance: a
+                 # large tolerance makes any difference "small")
+                 convergence_tol=[1e-3, 1e-1, 10.0, 1e-5, 1e3][(i // 2) % 5])
       else:
         p.update(max_iter=int(r.randint(2, 7)))
         if zero:
